@@ -26,6 +26,13 @@ results (`compose_lhs_witness`). The full statement
     ∀ cfg env outs, composeWf cfg env outs = true
 is therefore false for `Cfg.current`; `compose_compiles_partial` carries exactly the side condition,
 per model variant flag, and `compose_compiles_fixed` is the full statement for `Cfg.fixed`.
+"Exactly once" for helpers that return a function: compose and toerror return a function literal
+around the stages — building it evaluates nothing, and every INVOCATION runs each stage at most once
+(`compose` / `toError` below are the meaning of one invocation; the check invokes twice and observes
+the log before the first invocation). Fmap's error form with a multi-result `f` is different: it
+returns a function that holds the already computed results (`fmapE_fn_spec`,
+`fmapE_fn_evaluates_nothing`). Join, traverse and the other fmap forms return plain values: all calls
+have happened when they return.
 For Join, the last stage is `f` itself and its results are returned unchanged (`return f()`), also
 beside its own error: the zero-value clause concerns the error that was already there.
 -/
@@ -117,6 +124,43 @@ theorem fmapE_spec {V E} (zeros : List V) (g : Stage V E) (f : List V → List V
 example : fmapE [0] (st (some 0) 0) (fun a => a) = { res := [0], err := some 0, log := [(0, [])] } := by decide
 example : fmapE [0] ⟨fun _ => ([5], (none : Option Nat))⟩ (fun a => a.map (· + 1)) = { res := [6], err := none, log := [(0, []), (1, [5])] } := by decide
 
+/-- Fmap's error form for an `f` with two or more results returns a FUNCTION. "Each stage exactly once,
+left to right" then means: by the time `deriveFmap` returns, `g` and then `f` have been called once
+each (only `g`, with the nil function and its error, when `g` fails) … -/
+theorem fmapE_fn_spec {V E} (g f : Stage V E) : fmapEFn g f = fmapEFnSpec g f :=
+  fmapEFn_eq_spec g f
+
+example : fmapEFn ⟨fun _ => ([5], (none : Option Nat))⟩ ⟨fun a => (a ++ a, none)⟩
+    = { fn := some { vals := [5, 5], err := none, perCall := [] }, err := none, log := [(0, []), (1, [5])] } := by decide
+example : fmapEFn (st (some 0) 0) (st none 1) = { fn := none, err := some 0, log := [(0, [])] } := by decide
+
+/-- … and the returned function evaluates nothing: after 0, 1, 2, … invocations the call log is still
+the one at the return of `deriveFmap`, and every invocation yields the same stored results. (A
+returned function that calls `f` itself — lazily, once per invocation — has `perCall ≠ []` and is
+excluded by this theorem; the check observes exactly this on the emitted code.) -/
+theorem fmapE_fn_evaluates_nothing {V E} (g f : Stage V E) (t : Thunk V E) (h : (fmapEFn g f).fn = some t) :
+    (∀ n, t.logAfter (fmapEFn g f).log n = (fmapEFn g f).log) ∧
+    t.invoke = { res := (f.run (g.run []).1).1, err := (f.run (g.run []).1).2, log := [] } := by
+  refine ⟨fmapEFn_logAfter g f t h, ?_⟩
+  rw [fmapEFn_eq_spec] at h
+  unfold fmapEFnSpec at h
+  split at h
+  · cases h
+  · simp only [Option.some.injEq] at h
+    rw [← h]; rfl
+
+example : ∃ t, (fmapEFn ⟨fun _ => ([5], (none : Option Nat))⟩ ⟨fun a => (a ++ a, none)⟩).fn = some t := ⟨_, rfl⟩
+
+/-- `fn, e := deriveFmap(f, g); deriveJoin(fn, e)` is the nested `deriveJoin(deriveFmap(f, g))` with every
+call made before join runs: join itself calls no stage (and never calls a nil function) -/
+theorem join_of_fmap_fn {V E} (zeros : List V) (g f : Stage V E) :
+    ∃ r, joinFn zeros (fmapEFn g f).fn (fmapEFn g f).err = some r ∧ r.log = [] ∧
+      bindE zeros g f = { res := r.res, err := r.err, log := (fmapEFn g f).log } :=
+  joinFn_fmapEFn zeros g f
+
+example : joinFn [0] (fmapEFn (st (some 0) 0) (st none 1)).fn (fmapEFn (st (some 0) 0) (st none 1)).err
+    = some { res := [0], err := some 0, log := [] } := by decide
+
 theorem joinE_spec {V E} (zeros : List V) (f : Stage V E) (err : Option E) :
     joinE zeros f err = joinESpec zeros f err :=
   joinE_eq_spec zeros f err
@@ -197,13 +241,14 @@ example : composeWf {} env [[.named 0], [tInt, .named 2]] = true :=
   compose_compiles_partial {} env _ (Or.inr (by decide)) (by decide)
 
 /-- with both defects repaired Compose compiles for all chains over proper types -/
-theorem compose_compiles_fixed (env : Env) (outs : List (List Ty))
+theorem compose_compiles_fixed (cfg : Cfg) (hz : cfg.zeroFixed = true) (hl : cfg.lhsFixed = true)
+    (env : Env) (outs : List (List Ty))
     (hty : ∀ T ∈ outs.getLast?.getD [], properTy (env.under T) = true) :
-    composeWf Cfg.fixed env outs = true :=
-  compose_compiles_partial Cfg.fixed env outs (Or.inl rfl) fun T hT => Or.inl ⟨rfl, hty T hT⟩
+    composeWf cfg env outs = true :=
+  compose_compiles_partial cfg env outs (Or.inl hl) fun T hT => Or.inl ⟨hz, hty T hT⟩
 
 example : composeWf Cfg.fixed env [[], [.named 1, .named 0]] = true :=
-  compose_compiles_fixed env _ (by decide)
+  compose_compiles_fixed Cfg.fixed rfl rfl env _ (by decide)
 
 /-- today: a stage without non-error results (`, err0 := f0(…)`) and a struct / named basic final
 result (`return nil, err0`) -/
